@@ -24,7 +24,7 @@ try:
         env["VERIF_REPO"] = tmp
     for cid in ids:
         r = subprocess.run([os.path.join(ROOT, "check"), cid, "quick"], cwd=ROOT, env=env, capture_output=True, text=True)
-        lines = [l for l in r.stdout.splitlines() if l.startswith(("VIOLATION", "KNOWN-FINDING", "INFRA", cid))]
+        lines = [l for l in r.stdout.splitlines() if l.startswith(("VIOLATION", "INFRA", cid))]
         print("%s vs %s: exit %d | %s" % (name, cid, r.returncode, " | ".join(l[:160] for l in lines[:3])))
 finally:
     if inrepo:
